@@ -1,1 +1,544 @@
-pub fn check(_p: &str, _tier: &str) -> i32 { 2 }
+//! E4: explicit-state breadth-first search over operation sequences of the REAL containers
+//! (both fringes, SimpleDominanceChecker, SimpleCache).  A state is the history reaching it; successors are
+//! built by replaying the history on a fresh real object plus one more operation; the search key is
+//! (fingerprint of the real object, state of the reference model), so merged states have identical futures.
+//! The search runs to a fixpoint: every operation sequence of every length over the alphabet is covered.
+use crate::par::*;
+use crate::report::*;
+use ddo::*;
+use serde_json::{json, Value};
+use std::cmp::Ordering;
+use std::collections::hash_map::DefaultHasher;
+use std::collections::{BTreeMap, BTreeSet, HashSet};
+use std::hash::{Hash, Hasher};
+use std::sync::Arc;
+use std::time::{Duration, Instant};
+
+fn h128<T: Hash>(x: &T) -> u128 {
+    let mut a = DefaultHasher::new();
+    x.hash(&mut a);
+    let mut b = DefaultHasher::new();
+    0x5bd1e995u64.hash(&mut b);
+    x.hash(&mut b);
+    ((a.finish() as u128) << 64) | b.finish() as u128
+}
+
+pub enum Step { Disabled, Next(u128), Bad(String, String) }
+
+pub struct BfsResult { pub states: u64, pub transitions: u64, pub depth: usize, pub fixpoint: bool, pub capped: Option<String>, pub sample: Vec<Vec<u16>> }
+
+/// level synchronous BFS; `eval(history, op)` replays the history on a fresh real object and applies op with all checks
+pub fn bfs<F: Fn(&[u16], u16) -> Step + Sync>(rep: &Reporter, engine: &str, nops: u16, max_states: u64, deadline: Instant, describe: &(dyn Fn(&[u16]) -> Value + Sync), eval: F) -> BfsResult {
+    let mut seen: HashSet<u128> = HashSet::new();
+    let mut frontier: Vec<Vec<u16>> = vec![vec![]];
+    // the key of the initial state is not known without a step: use a reserved key
+    seen.insert(0);
+    let mut transitions = 0u64;
+    let mut depth = 0usize;
+    let mut sample: Vec<Vec<u16>> = vec![];
+    let mut capped = None;
+    while !frontier.is_empty() {
+        #[derive(Default)]
+        struct Local { succ: Vec<(u128, Vec<u16>)>, transitions: u64, bad: Vec<(String, String, Vec<u16>)> }
+        let fr = &frontier;
+        let res = par_run::<Local, _>(fr.len() as u64, 64, Some(deadline), 0, |i, l| {
+            let hist = &fr[i as usize];
+            for op in 0..nops {
+                match eval(hist, op) {
+                    Step::Disabled => (),
+                    Step::Next(k) => { l.transitions += 1; let mut h = hist.clone(); h.push(op); l.succ.push((k, h)); }
+                    Step::Bad(sig, what) => { l.transitions += 1; let mut h = hist.clone(); h.push(op); if l.bad.len() < 4 { l.bad.push((sig, what, h)); } }
+                }
+            }
+        });
+        if res.capped || res.done < fr.len() as u64 { capped = Some(format!("wall clock cap hit at BFS depth {} ({} of {} frontier states expanded)", depth, res.done, fr.len())); }
+        let mut next = vec![];
+        for l in res.locals {
+            transitions += l.transitions;
+            for (sig, what, h) in l.bad { rep.violation(sig, what, json!({"engine": engine, "history": describe(&h), "ops": h})); }
+            for (k, h) in l.succ { if seen.insert(k) { if sample.len() < 3 && h.len() >= 6 { sample.push(h.clone()); } next.push(h); } }
+        }
+        if capped.is_some() { break; }
+        if seen.len() as u64 > max_states { capped = Some(format!("state cap {} hit at BFS depth {}", max_states, depth)); break; }
+        if !next.is_empty() { depth += 1; }
+        // deterministic order
+        next.sort();
+        frontier = next;
+    }
+    BfsResult { states: seen.len() as u64, transitions, depth, fixpoint: capped.is_none(), capped, sample }
+}
+
+// ------------------------------------------------------------------------------------------------
+// C11: fringes
+// ------------------------------------------------------------------------------------------------
+#[derive(Clone, Copy)]
+struct NatRank;
+impl StateRanking for NatRank { type State = u8; fn compare(&self, a: &u8, b: &u8) -> Ordering { a.cmp(b) } }
+static NAT: NatRank = NatRank;
+
+#[derive(Clone, Copy, Debug, PartialEq, Eq, Hash, PartialOrd, Ord)]
+struct Item { state: u8, depth: u8, value: i8, ub: i8 }
+fn item_path(i: &Item) -> Vec<Decision> { vec![Decision { variable: Variable(i.state as usize * 16 + i.depth as usize), value: i.value as isize * 16 + i.ub as isize }] }
+fn to_sub(i: &Item) -> SubProblem<u8> { SubProblem { state: Arc::new(i.state), value: i.value as isize, path: item_path(i), ub: i.ub as isize, depth: i.depth as usize } }
+
+#[derive(Clone, Debug)]
+enum FOp { Push(Item), Pop, Clear }
+
+fn fringe_alphabet(ids: &[(u8, u8)], ubs: &[i8]) -> Vec<FOp> {
+    let mut v = vec![];
+    for (s, d) in ids { for value in [0i8, 1] { for ub in ubs.iter() { v.push(FOp::Push(Item { state: *s, depth: *d, value, ub: *ub })); } } }
+    v.push(FOp::Pop);
+    v.push(FOp::Clear);
+    v
+}
+
+/// reference of the duplicate free fringe: (state, depth) -> (value, acceptable paths = ub tags of the pushes holding the max value, ub)
+#[derive(Clone, Debug, Default, Hash, PartialEq, Eq)]
+struct RefNoDup { m: BTreeMap<(u8, u8), (i8, BTreeSet<i8>, i8)> }
+/// reference of the simple fringe: a multiset
+#[derive(Clone, Debug, Default, Hash, PartialEq, Eq)]
+struct RefMulti { m: BTreeMap<Item, u8> }
+
+trait FringeRef: Default + Hash + Clone {
+    fn push(&mut self, i: &Item);
+    fn len(&self) -> usize;
+    fn clear(&mut self);
+    /// checks a popped sub-problem and removes it; Err = description of the disagreement
+    fn pop_check(&mut self, got: Option<&SubProblem<u8>>) -> Result<(), String>;
+}
+fn rank_key(ub: isize, value: isize, state: u8) -> (isize, isize, u8) { (ub, value, state) }
+impl FringeRef for RefNoDup {
+    fn push(&mut self, i: &Item) {
+        match self.m.get_mut(&(i.state, i.depth)) {
+            None => { self.m.insert((i.state, i.depth), (i.value, [i.ub].into_iter().collect(), i.ub)); }
+            Some(e) => {
+                if i.value > e.0 { e.0 = i.value; e.1 = [i.ub].into_iter().collect(); } else if i.value == e.0 { e.1.insert(i.ub); }
+                e.2 = e.2.max(i.ub);
+            }
+        }
+    }
+    fn len(&self) -> usize { self.m.len() }
+    fn clear(&mut self) { self.m.clear() }
+    fn pop_check(&mut self, got: Option<&SubProblem<u8>>) -> Result<(), String> {
+        match got {
+            None => if self.m.is_empty() { Ok(()) } else { Err(format!("pop returned None but {} sub-problems are open", self.m.len())) },
+            Some(g) => {
+                let key = (*g.state, g.depth as u8);
+                let e = match self.m.get(&key) { None => return Err(format!("pop invented sub-problem (state {}, depth {}) which is not in the fringe", g.state, g.depth)), Some(e) => e.clone() };
+                if g.value != e.0 as isize { return Err(format!("popped (state {}, depth {}) with value {} but the largest value pushed for it is {}", g.state, g.depth, g.value, e.0)); }
+                if g.ub != e.2 as isize { return Err(format!("popped (state {}, depth {}) with ub {} but the largest ub pushed for it is {}", g.state, g.depth, g.ub, e.2)); }
+                let ok_path = e.1.iter().any(|tag| g.path == item_path(&Item { state: key.0, depth: key.1, value: e.0, ub: *tag }));
+                if !ok_path { return Err(format!("popped (state {}, depth {}) value {} with a path {:?} which is not the path of a push holding that value", g.state, g.depth, g.value, g.path)); }
+                let mine = rank_key(g.ub, g.value, *g.state);
+                if let Some((k, o)) = self.m.iter().find(|(k, o)| rank_key(o.2 as isize, o.0 as isize, k.0) > mine) { return Err(format!("popped (state {}, depth {}, value {}, ub {}) although (state {}, depth {}, value {}, ub {}) ranks higher", g.state, g.depth, g.value, g.ub, k.0, k.1, o.0, o.2)); }
+                self.m.remove(&key);
+                Ok(())
+            }
+        }
+    }
+}
+impl FringeRef for RefMulti {
+    fn push(&mut self, i: &Item) { *self.m.entry(*i).or_insert(0) += 1; }
+    fn len(&self) -> usize { self.m.values().map(|c| *c as usize).sum() }
+    fn clear(&mut self) { self.m.clear() }
+    fn pop_check(&mut self, got: Option<&SubProblem<u8>>) -> Result<(), String> {
+        match got {
+            None => if self.m.is_empty() { Ok(()) } else { Err(format!("pop returned None but {} sub-problems are open", self.len())) },
+            Some(g) => {
+                let it = Item { state: *g.state, depth: g.depth as u8, value: g.value as i8, ub: g.ub as i8 };
+                if !self.m.contains_key(&it) || g.path != item_path(&it) { return Err(format!("pop invented sub-problem {:?} / path {:?}", it, g.path)); }
+                let mine = rank_key(g.ub, g.value, *g.state);
+                if let Some(o) = self.m.keys().find(|o| rank_key(o.ub as isize, o.value as isize, o.state) > mine) { return Err(format!("popped {:?} although {:?} ranks higher", it, o)); }
+                let c = self.m.get_mut(&it).unwrap();
+                *c -= 1;
+                if *c == 0 { self.m.remove(&it); }
+                Ok(())
+            }
+        }
+    }
+}
+
+trait RealFringe { fn make() -> Self; fn fr(&mut self) -> &mut dyn Fringe<State = u8>; fn fp(&self) -> Vec<u64>; const BOUND: Option<usize>; const NAME: &'static str; }
+struct RNoDup(NoDupFringe<MaxUB<'static, NatRank>>);
+struct RSimple(SimpleFringe<MaxUB<'static, NatRank>>);
+/// Canonical form of the NoDupFringe fingerprint: the payload and position of the slots which sit in the recycle bin
+/// are dead (push overwrites both before anything reads them, pop/len/clear never look at them), so they are blanked.
+/// Layout of the hook: [n, heap.., n, pos.., n, recycle_bin.., n, (state hash, depth, value, ub, path len, path..)*, n, index..]
+fn canon_nodup(fp: Vec<u64>) -> Vec<u64> {
+    let mut i = 0;
+    let mut out = vec![];
+    let hl = fp[i] as usize; out.extend_from_slice(&fp[i..i + 1 + hl]); i += 1 + hl;
+    let pl = fp[i] as usize; let pos_at = out.len() + 1; out.extend_from_slice(&fp[i..i + 1 + pl]); i += 1 + pl;
+    let bl = fp[i] as usize; let bin: Vec<usize> = fp[i + 1..i + 1 + bl].iter().map(|x| *x as usize).collect(); out.extend_from_slice(&fp[i..i + 1 + bl]); i += 1 + bl;
+    for b in bin.iter() { out[pos_at + *b] = u64::MAX; }
+    let nl = fp[i] as usize; out.push(fp[i]); i += 1;
+    for id in 0..nl {
+        let plen = fp[i + 4] as usize;
+        let len = 5 + 2 * plen;
+        if bin.contains(&id) { out.push(u64::MAX); } else { out.extend_from_slice(&fp[i..i + len]); }
+        i += len;
+    }
+    out.extend_from_slice(&fp[i..]);
+    out
+}
+impl RealFringe for RNoDup { fn make() -> Self { RNoDup(NoDupFringe::new(MaxUB::new(&NAT))) } fn fr(&mut self) -> &mut dyn Fringe<State = u8> { &mut self.0 } fn fp(&self) -> Vec<u64> { canon_nodup(self.0.verif_fingerprint()) } const BOUND: Option<usize> = None; const NAME: &'static str = "nodup"; }
+impl RealFringe for RSimple { fn make() -> Self { RSimple(SimpleFringe::new(MaxUB::new(&NAT))) } fn fr(&mut self) -> &mut dyn Fringe<State = u8> { &mut self.0 } fn fp(&self) -> Vec<u64> { self.0.verif_fingerprint() } const BOUND: Option<usize> = Some(5); const NAME: &'static str = "simple"; }
+
+fn fringe_eval<R: RealFringe, M: FringeRef>(alpha: &[FOp], bound: Option<usize>, hist: &[u16], op: u16) -> Step {
+    let mut real = R::make();
+    let mut model = M::default();
+    let r = std::panic::catch_unwind(std::panic::AssertUnwindSafe(|| {
+        for o in hist {
+            match &alpha[*o as usize] {
+                FOp::Push(i) => { real.fr().push(to_sub(i)); model.push(i); }
+                FOp::Pop => { let g = real.fr().pop(); let _ = model.pop_check(g.as_ref()); }
+                FOp::Clear => { real.fr().clear(); model.clear(); }
+            }
+        }
+        let last_ub_before: Option<isize> = None;
+        let _ = last_ub_before;
+        match &alpha[op as usize] {
+            FOp::Push(i) => {
+                if let Some(b) = bound { if model.len() >= b { return Step::Disabled; } }
+                real.fr().push(to_sub(i));
+                model.push(i);
+            }
+            FOp::Pop => {
+                let g = real.fr().pop();
+                if let Err(e) = model.pop_check(g.as_ref()) { return Step::Bad(format!("fringe:{}:pop", R::NAME), e); }
+            }
+            FOp::Clear => { real.fr().clear(); model.clear(); }
+        }
+        if real.fr().len() != model.len() { return Step::Bad(format!("fringe:{}:len", R::NAME), format!("len() = {} but {} distinct sub-problems are open", real.fr().len(), model.len())); }
+        if real.fr().is_empty() != (model.len() == 0) { return Step::Bad(format!("fringe:{}:is_empty", R::NAME), format!("is_empty() = {} but {} sub-problems are open", real.fr().is_empty(), model.len())); }
+        Step::Next(h128(&(real.fp(), &model)))
+    }));
+    match r { Ok(s) => s, Err(_) => Step::Bad(format!("fringe:{}:panic", R::NAME), format!("panicked: {}", crate::run::take_panic_msg())) }
+}
+
+fn c11(rep: &Reporter) -> i32 {
+    let th = rep.thorough();
+    let deadline = Instant::now() + Duration::from_secs(if th { 1500 } else { 40 });
+    let ids4: Vec<(u8, u8)> = vec![(0, 0), (0, 1), (1, 0), (2, 0)];
+    let ids5: Vec<(u8, u8)> = vec![(0, 0), (0, 1), (1, 0), (1, 1), (2, 0)];
+    // (name, alphabet, content bound of the simple fringe)
+    let mut alphabets = vec![("4 sub-problem ids x 2 values x 2 ubs", fringe_alphabet(&ids4, &[1, 2]), 5usize)];
+    if th {
+        alphabets.push(("4 sub-problem ids x 2 values x 3 ubs", fringe_alphabet(&ids4, &[1, 2, 3]), 5));
+        alphabets.push(("5 sub-problem ids x 2 values x 2 ubs", fringe_alphabet(&ids5, &[1, 2]), 6));
+    }
+    let mut runs = vec![];
+    let (mut states, mut transitions, mut fix) = (0u64, 0u64, true);
+    let mut samples = vec![];
+    for (name, alpha, bound) in alphabets.iter() {
+        let describe = |h: &[u16]| json!(h.iter().map(|o| format!("{:?}", alpha[*o as usize])).collect::<Vec<_>>());
+        let a = alpha;
+        let nd = bfs(rep, "ops-fringe-nodup", alpha.len() as u16, 40_000_000, deadline, &describe, |h, op| fringe_eval::<RNoDup, RefNoDup>(a, None, h, op));
+        let sf = bfs(rep, "ops-fringe-simple", alpha.len() as u16, 40_000_000, deadline, &describe, |h, op| fringe_eval::<RSimple, RefMulti>(a, Some(*bound), h, op));
+        states += nd.states + sf.states; transitions += nd.transitions + sf.transitions; fix &= nd.fixpoint && sf.fixpoint;
+        if samples.len() < 4 { for h in nd.sample.iter().take(1).chain(sf.sample.iter().take(1)) { samples.push(describe(h)); } }
+        runs.push(json!({"alphabet": name, "operations": alpha.len(),
+            "nodup": {"states": nd.states, "transitions": nd.transitions, "bfs_depth": nd.depth, "fixpoint_reached": nd.fixpoint, "cap": nd.capped},
+            "simple": {"states": sf.states, "transitions": sf.transitions, "bfs_depth": sf.depth, "fixpoint_reached": sf.fixpoint, "cap": sf.capped, "content_bound": bound}}));
+    }
+    // solver level: depth-free models, NoDupFringe vs SimpleFringe vs oracle
+    let (agg, scopes, complete) = solver_level(rep, "C11");
+    let cov = json!({
+        "states": states, "transitions": transitions, "traces_validated_against_impl": transitions, "samples": samples,
+        "evaluations": transitions + agg.runs, "distinct_nontrivial": states,
+        "rule": "explicit-state BFS over push/pop/clear on the real NoDupFringe<MaxUB> and SimpleFringe<MaxUB>; every transition is executed on the real object (replayed from scratch) and compared with the reference (map keyed by (state, depth) -> (max value with that value's own path, max ub) / multiset): len(), is_empty(), pop returns an arg-max under (ub, value, state ranking) identical in all five fields to what the reference holds, clear empties; state key = (canonical verif_fingerprint of the real object, reference state); distinct_nontrivial = distinct reachable states",
+        "exhaustive": fix && complete, "runs": runs,
+        "solver_level": {"scopes": scopes, "runs": agg.runs, "runs_with_2+_subproblems": agg.nontrivial, "monitor_hits_all_properties": agg.monitor_hits},
+    });
+    rep.finish("model_checking", cov, vec![
+        "every explored transition is an execution of the real container, so the number of validated traces equals the number of transitions".to_string(),
+        "the SimpleFringe search is bounded to a content of 5 / 6 items because duplicates make its state space infinite".to_string(),
+        "state matching merges two histories only when the internal representation (fingerprint hook; dead recycled slots blanked) AND the reference state are identical".to_string(),
+    ])
+}
+
+fn solver_level(rep: &Reporter, prop: &str) -> (crate::bnb::Agg, Vec<Value>, bool) {
+    use crate::bnb::*;
+    use crate::checks::*;
+    use crate::family::family;
+    use crate::run::Cfg;
+    let th = rep.thorough();
+    let cfgs = Cfg::full(&[1, 2, 3]);
+    let mk = |name: &str, variants: Vec<crate::model::Variant>, rotate: bool, limit: Option<u64>| Plan { fam: family(name), variants, rotate, cfgs: cfgs.clone(), mode: Mode::Plain, record: true, limit };
+    let plans = match prop {
+        "C11" => vec![
+            mk("TM-B4", variants_flat(), true, Some(if th { 16384 } else { 4000 })),
+            mk("TM-N0.1", variants_flat(), true, None),
+            mk("TM-N1.1", variants_flat(), true, None),
+            mk("SP-3", variants_sp(), false, None),
+            mk("SP-4", variants_sp(), true, Some(if th { 5184 } else { 1500 })),
+        ],
+        _ => vec![
+            mk("TM-B4", variants_dom(), true, Some(if th { 16384 } else { 4000 })),
+            mk("TM-N0.1", variants_dom(), false, None),
+            mk("TM-N1.1", variants_dom(), false, None),
+            mk("TM-N2.1", variants_dom(), true, None),
+            mk("TM-N3.1", variants_dom(), true, None),
+            mk("KP-2", variants_kp(), false, None),
+            mk("KP-3", variants_kp(), true, None),
+        ],
+    };
+    let deadline = Some(Instant::now() + Duration::from_secs(if th { 600 } else { 15 }));
+    run_plans(rep, &[prop], &plans, deadline)
+}
+
+// ------------------------------------------------------------------------------------------------
+// C10: dominance checker
+// ------------------------------------------------------------------------------------------------
+#[derive(Clone, Copy, Debug, PartialEq, Eq, Hash, PartialOrd, Ord)]
+struct DState { key: Option<u8>, c: [i8; 2] }
+#[derive(Debug)]
+struct TestDom { dims: usize, use_value: bool }
+impl Dominance for TestDom {
+    type State = DState;
+    type Key = u8;
+    fn get_key(&self, s: Arc<DState>) -> Option<u8> { s.key }
+    fn nb_dimensions(&self, _: &DState) -> usize { self.dims }
+    fn get_coordinate(&self, s: &DState, i: usize) -> isize { s.c[i] as isize }
+    fn use_value(&self) -> bool { self.use_value }
+}
+#[derive(Clone, Debug)]
+enum DOp { Query { s: DState, depth: u8, value: i8 }, ClearLayer(u8) }
+
+#[derive(Clone, Debug, Default, Hash, PartialEq, Eq)]
+struct RefDom { fronts: BTreeMap<(u8, u8), BTreeSet<([i8; 2], i8)>> }
+impl RefDom {
+    fn ge(dims: usize, uv: bool, a: &([i8; 2], i8), b: &([i8; 2], i8)) -> bool { (0..dims).all(|i| a.0[i] >= b.0[i]) && (!uv || a.1 >= b.1) }
+    fn gt(dims: usize, uv: bool, a: &([i8; 2], i8), b: &([i8; 2], i8)) -> bool { Self::ge(dims, uv, a, b) && ((0..dims).any(|i| a.0[i] > b.0[i]) || (uv && a.1 > b.1)) }
+    /// returns whether q is dominated; updates the front otherwise
+    fn query(&mut self, dims: usize, uv: bool, depth: u8, s: &DState, value: i8) -> bool {
+        let key = match s.key { None => return false, Some(k) => k };
+        let q = (s.c, if uv { value } else { 0 });
+        let front = self.fronts.entry((depth, key)).or_default();
+        if front.iter().any(|e| Self::gt(dims, uv, e, &q)) { return true; }
+        front.retain(|e| !Self::ge(dims, uv, &q, e));
+        front.insert(q);
+        false
+    }
+}
+
+fn dom_eval(alpha: &[DOp], dims: usize, uv: bool, ndepth: usize, probes: &[i8], hist: &[u16], op: u16) -> Step {
+    let build = |hist: &[u16]| -> (SimpleDominanceChecker<TestDom>, RefDom) {
+        let real = SimpleDominanceChecker::new(TestDom { dims, use_value: uv }, ndepth - 1);
+        let mut model = RefDom::default();
+        for o in hist {
+            match &alpha[*o as usize] {
+                DOp::Query { s, depth, value } => { let _ = real.is_dominated_or_insert(Arc::new(*s), *depth as usize, *value as isize); let _ = model.query(dims, uv, *depth, s, *value); }
+                DOp::ClearLayer(d) => { real.clear_layer(*d as usize); model.fronts.retain(|k, _| k.0 != *d); }
+            }
+        }
+        (real, model)
+    };
+    let r = std::panic::catch_unwind(std::panic::AssertUnwindSafe(|| {
+        let (real, mut model) = build(hist);
+        match &alpha[op as usize] {
+            DOp::Query { s, depth, value } => {
+                let got = real.is_dominated_or_insert(Arc::new(*s), *depth as usize, *value as isize);
+                let exp = model.query(dims, uv, *depth, s, *value);
+                if got.dominated != exp {
+                    return Step::Bad(format!("dominance:verdict:{}", if exp { "missed" } else { "spurious" }), format!("query {:?} depth {} value {}: checker says dominated = {} but the Pareto front of the recorded states says {}", s, depth, value, got.dominated, exp));
+                }
+                if s.key.is_none() && (got.dominated || got.threshold.is_some()) { return Step::Bad("dominance:none-key".to_string(), format!("state without key: {:?}", got)); }
+                if got.dominated {
+                    match got.threshold {
+                        None => return Step::Bad("dominance:threshold-missing".to_string(), format!("dominated verdict without a threshold for {:?} value {}", s, value)),
+                        Some(t) => {
+                            if t < *value as isize { return Step::Bad("dominance:threshold-below-value".to_string(), format!("query {:?} value {} is dominated with threshold {} < value", s, value, t)); }
+                            // soundness of the threshold: the same state with any value <= t is dominated too (probe on a replayed copy)
+                            let mut ps: Vec<isize> = probes.iter().map(|p| *p as isize).collect();
+                            if t != isize::MAX { ps.push(t); }
+                            for p in ps {
+                                if p <= t {
+                                    let (copy, _) = build(hist);
+                                    let again = copy.is_dominated_or_insert(Arc::new(*s), *depth as usize, p);
+                                    if !again.dominated { return Step::Bad("dominance:threshold-unsound".to_string(), format!("query {:?} value {} is dominated with threshold {}, but the same state with value {} <= threshold is NOT dominated in the same store", s, value, t, p)); }
+                                }
+                            }
+                        }
+                    }
+                } else if got.threshold.is_some() { return Step::Bad("dominance:threshold-without-dominance".to_string(), format!("not dominated but threshold {:?}", got.threshold)); }
+            }
+            DOp::ClearLayer(d) => { real.clear_layer(*d as usize); model.fronts.retain(|k, _| k.0 != *d); }
+        }
+        Step::Next(h128(&(format!("{:?}", real), &model)))
+    }));
+    match r { Ok(s) => s, Err(_) => Step::Bad("dominance:panic".to_string(), format!("panicked: {}", crate::run::take_panic_msg())) }
+}
+
+fn dom_alphabet(keys: &[Option<u8>], depths: &[u8], coords: &[i8], dims: usize, values: &[i8], clear: bool) -> Vec<DOp> {
+    let mut v = vec![];
+    for k in keys { for d in depths {
+        if k.is_none() { v.push(DOp::Query { s: DState { key: None, c: [coords[0], coords[0]] }, depth: *d, value: values[0] }); continue; }
+        for c0 in coords { for c1 in (if dims == 2 { coords.to_vec() } else { vec![0] }) { for val in values {
+            v.push(DOp::Query { s: DState { key: *k, c: [*c0, c1] }, depth: *d, value: *val });
+        } } }
+    } }
+    if clear { for d in depths { v.push(DOp::ClearLayer(*d)); } }
+    v
+}
+
+fn c10(rep: &Reporter) -> i32 {
+    let th = rep.thorough();
+    let deadline = Instant::now() + Duration::from_secs(if th { 1500 } else { 40 });
+    let mut runs = vec![];
+    let mut tot_states = 0;
+    let mut tot_trans = 0;
+    let mut fix = true;
+    let mut samples = vec![];
+    // (name, keys, depths, coords, dims, values, use_value, clear)
+    let c3: Vec<i8> = vec![0, 1, 2];
+    let c2: Vec<i8> = vec![0, 1];
+    let mut specs: Vec<(&str, Vec<Option<u8>>, Vec<u8>, Vec<i8>, usize, Vec<i8>, bool, bool)> = vec![
+        ("main-with-value", vec![Some(0), None], vec![0], c3.clone(), 2, c3.clone(), true, false),
+        ("main-without-value", vec![Some(0), None], vec![0], c3.clone(), 2, c3.clone(), false, false),
+        ("two-keys", vec![Some(0), Some(1)], vec![0], c2.clone(), 1, c2.clone(), true, true),
+        ("two-depths", vec![Some(0)], vec![0, 1], c2.clone(), 1, c2.clone(), true, true),
+        ("two-depths-2d", vec![Some(0)], vec![0, 1], c2.clone(), 2, vec![0], false, true),
+    ];
+    if th {
+        specs.push(("thorough-4-coords-with-value", vec![Some(0)], vec![0], vec![0, 1, 2, 3], 2, c2.clone(), true, true));
+        specs.push(("thorough-two-keys-2d", vec![Some(0), Some(1)], vec![0], c2.clone(), 2, c2.clone(), true, true));
+    }
+    for (name, keys, depths, coords, dims, values, uv, clear) in specs {
+        let alpha = dom_alphabet(&keys, &depths, &coords, dims, &values, clear);
+        let describe = |h: &[u16]| json!(h.iter().map(|o| format!("{:?}", alpha[*o as usize])).collect::<Vec<_>>());
+        let a = &alpha;
+        let nd = depths.len();
+        let vals = values.clone();
+        let r = bfs(rep, &format!("ops-dominance-{}", name), alpha.len() as u16, if th { 20_000_000 } else { 2_000_000 }, deadline, &describe, |h, op| dom_eval(a, dims, uv, nd, &vals, h, op));
+        tot_states += r.states; tot_trans += r.transitions; fix &= r.fixpoint;
+        for s in r.sample.iter().take(1) { samples.push(describe(s)); }
+        runs.push(json!({"run": name, "alphabet_size": alpha.len(), "use_value": uv, "dims": dims, "states": r.states, "transitions": r.transitions, "bfs_depth": r.depth, "fixpoint_reached": r.fixpoint, "cap": r.capped}));
+    }
+    // comparator: partial_cmp Greater => cmp Greater, for all pairs of the alphabet
+    let mut cmp_pairs = 0u64;
+    for uv in [false, true] {
+        let d = TestDom { dims: 2, use_value: uv };
+        for a0 in 0..3i8 { for a1 in 0..3i8 { for av in 0..3i8 { for b0 in 0..3i8 { for b1 in 0..3i8 { for bv in 0..3i8 {
+            let a = DState { key: Some(0), c: [a0, a1] };
+            let b = DState { key: Some(0), c: [b0, b1] };
+            cmp_pairs += 1;
+            let p = d.partial_cmp(&a, av as isize, &b, bv as isize);
+            let c = Dominance::cmp(&d, &a, av as isize, &b, bv as isize);
+            let chk = SimpleDominanceChecker::new(TestDom { dims: 2, use_value: uv }, 1);
+            let c2 = DominanceChecker::cmp(&chk, &a, av as isize, &b, bv as isize);
+            if let Some(DominanceCmpResult { ordering: Ordering::Greater, .. }) = p {
+                if c != Ordering::Greater || c2 != Ordering::Greater { rep.violation("dominance:comparator".to_string(), format!("{:?}/{} dominates {:?}/{} (use_value={}) but the sorting comparator says {:?}/{:?}", a, av, b, bv, uv, c, c2), json!({"engine": "ops-dominance-cmp", "a": format!("{:?}", a), "va": av, "b": format!("{:?}", b), "vb": bv, "use_value": uv})); }
+            }
+            if let Some(DominanceCmpResult { ordering: Ordering::Less, .. }) = p {
+                if c != Ordering::Less { rep.violation("dominance:comparator".to_string(), format!("{:?}/{} is dominated by {:?}/{} (use_value={}) but the sorting comparator says {:?}", a, av, b, bv, uv, c), json!({"engine": "ops-dominance-cmp"})); }
+            }
+        } } } } } }
+    }
+    let (agg, scopes, complete) = solver_level(rep, "C10");
+    let cov = json!({
+        "states": tot_states, "transitions": tot_trans, "traces_validated_against_impl": tot_trans, "samples": samples,
+        "evaluations": tot_trans + cmp_pairs + agg.runs, "distinct_nontrivial": tot_states,
+        "rule": "explicit-state BFS over query sequences on the real SimpleDominanceChecker (harness Dominance rule over tiny key/coordinate/value alphabets, with and without value, clear_layer included where listed); every transition is executed on the real object and compared with a reference Pareto front: dominated <=> some recorded entry is >= everywhere and > somewhere; otherwise recorded and every entry it dominates or equals is dropped (checked differentially through all later answers); dominated => threshold >= value and re-querying the same state with any value <= threshold on a replayed copy of the same store is dominated; None key => never dominated nor stored; state key = (Debug print of the checker = its full content, reference fronts); plus the comparator grid and solver-level runs with exact / weakened / capacity dominance rules against the DP oracle",
+        "exhaustive": fix && complete, "runs": runs, "comparator_pairs": cmp_pairs,
+        "solver_level": {"scopes": scopes, "runs": agg.runs, "runs_with_2+_subproblems": agg.nontrivial, "dominance_prunings": agg.dom_pruned, "monitor_hits_all_properties": agg.monitor_hits},
+    });
+    rep.finish("model_checking", cov, vec!["every explored transition is an execution of the real checker (replayed from scratch)".to_string(), "the Debug print of SimpleDominanceChecker shows its complete content in internal order".to_string()])
+}
+
+// ------------------------------------------------------------------------------------------------
+// C18 (sequential part): cache
+// ------------------------------------------------------------------------------------------------
+#[derive(Clone, Debug)]
+enum COp { Update { s: u8, depth: u8, value: i8, explored: bool }, Get { s: u8, depth: u8 }, ClearLayer(u8), Clear }
+struct OneVar;
+impl Problem for OneVar {
+    type State = u8;
+    fn nb_variables(&self) -> usize { 1 }
+    fn initial_state(&self) -> u8 { 0 }
+    fn initial_value(&self) -> isize { 0 }
+    fn transition(&self, s: &u8, _: Decision) -> u8 { *s }
+    fn transition_cost(&self, _: &u8, _: &u8, _: Decision) -> isize { 0 }
+    fn next_variable(&self, _: usize, _: &mut dyn Iterator<Item = &u8>) -> Option<Variable> { None }
+    fn for_each_in_domain(&self, _: Variable, _: &u8, _: &mut dyn DecisionCallback) {}
+}
+fn cache_alphabet(th: bool) -> Vec<COp> {
+    let mut v = vec![];
+    let states: Vec<u8> = if th { vec![0, 1, 2] } else { vec![0, 1] };
+    for s in states.iter() { for depth in [0u8, 1] { for value in [0i8, 1, 2] { for explored in [false, true] { v.push(COp::Update { s: *s, depth, value, explored }); } } } }
+    for s in states.iter() { for depth in [0u8, 1] { v.push(COp::Get { s: *s, depth }); } }
+    v.push(COp::ClearLayer(0)); v.push(COp::ClearLayer(1)); v.push(COp::Clear);
+    v
+}
+type RefCacheMap = BTreeMap<(u8, u8), (i8, bool)>;
+fn cache_apply(model: &mut RefCacheMap, real: &SimpleCache<u8>, op: &COp, check: bool) -> Option<(String, String)> {
+    match op {
+        COp::Update { s, depth, value, explored } => {
+            real.update_threshold(Arc::new(*s), *depth as usize, *value as isize, *explored);
+            let e = model.entry((*s, *depth)).or_insert((*value, *explored));
+            if (*value, *explored) > *e { *e = (*value, *explored); }
+        }
+        COp::Get { s, depth } => {
+            let got = real.get_threshold(s, *depth as usize);
+            let exp = model.get(&(*s, *depth)).map(|(v, e)| Threshold { value: *v as isize, explored: *e });
+            if check && got != exp { return Some(("cache:get".to_string(), format!("get_threshold(state {}, depth {}) = {:?} but the maximum recorded since the layer was last cleared is {:?}", s, depth, got, exp))); }
+        }
+        COp::ClearLayer(d) => { real.clear_layer(*d as usize); model.retain(|k, _| k.1 != *d); }
+        COp::Clear => { real.clear(); model.clear(); }
+    }
+    None
+}
+fn cache_eval(alpha: &[COp], nstates: u8, hist: &[u16], op: u16) -> Step {
+    let r = std::panic::catch_unwind(std::panic::AssertUnwindSafe(|| {
+        let mut real = SimpleCache::<u8>::default();
+        real.initialize(&OneVar);
+        let mut model = RefCacheMap::new();
+        for o in hist { cache_apply(&mut model, &real, &alpha[*o as usize], false); }
+        if let Some((sig, what)) = cache_apply(&mut model, &real, &alpha[op as usize], true) { return Step::Bad(sig, what); }
+        // observation of the complete state after every transition: every key, and must_explore for every value
+        for s in 0..nstates { for depth in 0..2u8 {
+            let got = real.get_threshold(&s, depth as usize);
+            let exp = model.get(&(s, depth)).map(|(v, e)| Threshold { value: *v as isize, explored: *e });
+            if got != exp { return Step::Bad("cache:state".to_string(), format!("after {:?}: get_threshold(state {}, depth {}) = {:?}, expected {:?}", alpha[op as usize], s, depth, got, exp)); }
+            for value in -1..=3isize {
+                let sp = SubProblem { state: Arc::new(s), value, path: vec![], ub: 10, depth: depth as usize };
+                let me = real.must_explore(&sp);
+                let def = match exp { None => true, Some(t) => value > t.value || (value == t.value && !t.explored) };
+                if me != def { return Step::Bad("cache:must_explore".to_string(), format!("must_explore(state {}, depth {}, value {}) = {} with threshold {:?}", s, depth, value, me, exp)); }
+            }
+        } }
+        Step::Next(h128(&(format!("{:?}", real), &model)))
+    }));
+    match r { Ok(s) => s, Err(_) => Step::Bad("cache:panic".to_string(), format!("panicked: {}", crate::run::take_panic_msg())) }
+}
+
+fn c18(rep: &Reporter) -> i32 {
+    let th = rep.thorough();
+    let deadline = Instant::now() + Duration::from_secs(if th { 900 } else { 25 });
+    let alpha = cache_alphabet(th);
+    let describe = |h: &[u16]| json!(h.iter().map(|o| format!("{:?}", alpha[*o as usize])).collect::<Vec<_>>());
+    let a = &alpha;
+    let ns = if th { 3 } else { 2 };
+    let r = bfs(rep, "ops-cache", alpha.len() as u16, if th { 30_000_000 } else { 3_000_000 }, deadline, &describe, |h, op| cache_eval(a, ns, h, op));
+    let (loom_cov, loom_ok) = crate::loomdrv::run(rep);
+    let mut samples: Vec<Value> = r.sample.iter().map(|h| describe(h)).collect();
+    if let Some(s) = loom_cov.get("samples").and_then(|s| s.as_array()) { samples.extend(s.iter().cloned()); }
+    let loom_execs = loom_cov.get("executions").and_then(|x| x.as_u64()).unwrap_or(0);
+    let cov = json!({
+        "states": r.states + loom_cov.get("programs").and_then(|x| x.as_u64()).unwrap_or(0), "transitions": r.transitions + loom_execs, "traces_validated_against_impl": r.transitions + loom_execs,
+        "samples": samples, "evaluations": r.transitions + loom_execs, "distinct_nontrivial": r.states,
+        "rule": "sequential part: explicit-state BFS to fixpoint over update_threshold/get_threshold/clear_layer/clear on the real SimpleCache (2 layers) against a reference map with lexicographic (value, explored) maximum; after every transition every key and must_explore for every value are compared; concurrent part: see concurrent_part (loom: all interleavings of small programs on the real SimpleCache and SimpleDominanceChecker compiled against an instrumented dashmap stand-in, linearizability checked by brute force)",
+        "exhaustive": r.fixpoint && loom_ok,
+        "sequential_part": {"states": r.states, "transitions": r.transitions, "bfs_depth": r.depth, "fixpoint_reached": r.fixpoint, "cap": r.capped, "alphabet_size": alpha.len()},
+        "concurrent_part": loom_cov,
+    });
+    rep.finish("model_checking", cov, vec![
+        "sequential part: every transition is an execution of the real SimpleCache".to_string(),
+        "concurrent part: dashmap is replaced by a stand-in with the same API subset and locking discipline (per-shard RwLock held as long as the real guards hold it) over loom primitives; ddo's own code is compiled unmodified against it".to_string(),
+    ])
+}
+
+pub fn check(prop: &str, tier: &str) -> i32 {
+    let rep = Reporter::new(prop, tier);
+    match prop { "C10" => c10(&rep), "C11" => c11(&rep), _ => c18(&rep) }
+}
